@@ -78,6 +78,8 @@ def make_case(i, rng, tier):
     how = rng.choice(("file", "file", "files", "stdin"))
     if rng.random() < 0.03:
         how = rng.choice(("devstdin", "fifo"))         # input through a path that is not a regular file
+    elif rng.random() < 0.02:
+        how = "tty"                                     # output to a terminal (of some size) instead of a pipe
     if fmt in ("swtpm-log", "pcapng", "auto") or rng.random() < 0.5 or (how == "files" and fmt == "binary"):
         from .. import gen as _gen
         k = _gen.Knobs(rng)
@@ -229,6 +231,19 @@ def _convert(case, res, tmp):
             res.count("skipped:ambiguous-type-name")
             return
     stdin = None
+    if case["how"] == "tty":
+        cols = (40, 80, 100, 120, 200)[len(blob) % 5]
+        status, out, err = cli.run_subprocess_pty(argv + [_write(tmp, "input.bin", blob)], cols=cols)
+        res.count("subprocess-validated")
+        got = [ln.split() for ln in cli.strip(out).splitlines()] if case["out"] != "binary" else "".join(cli.strip(out).split())
+        want = [ln.split() for ln in cli.strip(expected).splitlines()] if case["out"] != "binary" else "".join(cli.strip(expected).split())
+        if status != 0:
+            res.v("C19.a", "C19.a:status:tty", "%s: exit status %d on a terminal, stderr %r" % (label, status, err[-300:]))
+        elif got != want:
+            res.v("C19.a", "C19.a:stdout:tty:%s" % case["out"], "%s: on a %d-column terminal the output differs from the library's lines: %s" % (
+                label, cols, common.show_diff(got, want, "rows") if isinstance(got, list) else "hex differs"))
+        res.nontrivial("convert", case["in"], case["out"], case["root"], case["how"], case["blob"])
+        return
     if case["how"] in ("devstdin", "fifo"):
         # a pipe behind a path: /dev/stdin with a piped stdin, or a named pipe a writer feeds - only real processes can do that
         if case["how"] == "devstdin":
